@@ -29,6 +29,10 @@ pub struct Plan {
     /// insertion order of the mapping set (0 = model order)
     pub map_order: u64,
     pub jar_io: IoPlan,
+    /// Some: the same jar is also offered as a `LazyJar` (entry-level seam: an entry operation fails once, or from
+    /// some point on)
+    #[serde(default)]
+    pub lazy: Option<crate::simjar::LazyPlan>,
 }
 
 const PKGS: [&str; 6] = ["", "a/", "net/x/", "p/q/r/", "ü/", "a/"];
@@ -416,7 +420,7 @@ pub fn gen_plan(rng: &mut Rng, tier: Tier) -> Plan {
     let text_ok = !direct_only && nests.iter().all(|n| n.kind == kind_of_inner_name(&n.inner));
     let via_text = if text_ok && w.chance(75) { Some(TextStyle { radix: w.below(4) as u8, crlf: w.chance(20), final_newline: w.chance(80) }) } else { None };
 
-    let mut p = Plan { classes, others, entry_order: if w.chance(50) { 0 } else { w.next() | 1 }, deflate: w.chance(50), nests, via_text, text_faults: vec![], m, map_order: if w.chance(50) { 0 } else { w.next() | 1 }, jar_io: IoPlan::plain() };
+    let mut p = Plan { classes, others, entry_order: if w.chance(50) { 0 } else { w.next() | 1 }, deflate: w.chance(50), nests, via_text, text_faults: vec![], m, map_order: if w.chance(50) { 0 } else { w.next() | 1 }, jar_io: IoPlan::plain(), lazy: None };
 
     // ---- schedules and faults
     let mode = s.below(10);
@@ -437,6 +441,17 @@ pub fn gen_plan(rng: &mut Rng, tier: Tier) -> Plan {
                 _ => Fault::SeekFail { at_call: f.below(30) as u32 },
             });
         }
+    }
+    // ---- the entry-level seam
+    let mut z = rng.split("lazy-jar");
+    if z.chance(30) {
+        let nent = (p.classes.len() + p.others.len()) as u64;
+        // nest_jar walks the entries twice (index pass, copy pass): about 3 operations per entry and pass
+        let span = 8 * nent + 6;
+        let mut fail_at: Vec<u32> = (0..z.below(3)).map(|_| z.below(span) as u32).collect();
+        fail_at.sort();
+        fail_at.dedup();
+        p.lazy = Some(crate::simjar::LazyPlan { fail_at, sticky: z.chance(30), io: if z.chance(50) { IoPlan::gen_legal(&mut z) } else { IoPlan::plain() } });
     }
     if let Some(st) = &p.via_text {
         if f.chance(45) {
